@@ -92,6 +92,12 @@ func TestC05(t *testing.T) {
 			c05CasePT(m, v, rng, et, ff, 11)
 		}
 	}
+	// long messages (tickets with large PACs, wrapped application data): lengths around and beyond 16 KiB and 64 KiB
+	for _, et := range allEtypes {
+		for _, l := range []int{16368, 16384, 16385, 20000, 40000, 65536 + 7} {
+			c05Case(m, v, rng, et, l, 3)
+		}
+	}
 	// des3 protocol keys that hold a weak or semi-weak DES key in one of their three positions (RFC 3961 corrects
 	// such keys only in random-to-key: E, D and DR use the key they are given), keys without odd parity, and
 	// keys of the other etypes made of one repeated octet
